@@ -19,32 +19,34 @@ TB_E2 = ("trusted: rustc, shuttle 0.9.3 runtime (sequentially consistent, switch
 CHECKS = {
  "C01": ([E1], "bounded-exhaustive enumeration of pipelines x event histories on the real operators with a notification-grammar monitor on every probe",
          "Every generated pipeline (whole catalogue, local and _threads forms, chains, two-input shapes, diamonds, flattening, multicast) is driven through every action history up to the length bound, with events continuing after terminals, and the grammar next*(error|complete)? is checked on every probe after every action.", "5/C01"),
- "C02": ([E1], "bounded-exhaustive enumeration of pipelines x action sequences x every unsubscription point x deviation-bounded scheduler run orders on the real operators under a virtual clock",
-         "Every generated pipeline (every scheduler-using stage alone and combined with every catalogue entry, two-input shapes, flattening, share, timer sources; both forms) is driven through every action sequence up to the length bound with unsubscribe()/guard drop injected at every position, then everything still scheduled is run out in every order within the deviation bound; the probe must never grow after unsubscribe() returned. (The racing-thread half is served by engine E2 once built.)", "5/C02"),
+ "C02": ([E1, E2], "bounded-exhaustive enumeration of pipelines x action sequences x every unsubscription point x deviation-bounded scheduler run orders on the real operators under a virtual clock; plus exhaustive preemption-bounded DFS over interleavings of an emitting and an unsubscribing thread",
+         "Every generated pipeline (every scheduler-using stage alone and combined with every catalogue entry, two-input shapes, flattening, share, timer sources; both forms) is driven through every action sequence up to the length bound with unsubscribe()/guard drop injected at every position, then everything still scheduled is run out in every order within the deviation bound; the probe must never grow after unsubscribe() returned. (The racing-thread half is served by engine E2 ; see coverage.engines in the evidence file.)", "5/C02"),
  "C03": ([E1], "bounded-exhaustive enumeration of operator chains x event histories on the real operators, compared step by step with a list-based reference interpreter",
          "Every chain of catalogue operators up to the depth bound is run on every event history up to the length bound (hot subject, hot create(), cold create()/from_iter() delivery, every basic source) and the probe trace must equal the reference interpreter after every single event; nothing is sampled.", "5/C03"),
  "C04": ([E1], "bounded-exhaustive enumeration of merged input timelines on the real two-input operators, compared step by step with per-operator reference functions",
          "For every two-input combinator in both forms every merged timeline of the two inputs up to the length bound (terminals of either input at every position, cold synchronous inputs on either side) is executed and compared with the reference function after every event.", "5/C04"),
  "C05": ([E1], "bounded-exhaustive enumeration of outer/inner event interleavings on the real flattening operators against a FIFO reference model, with a live-subscription counter and hang/panic detection",
          "Every interleaving up to the length bound of outer items/terminals and inner items/terminals over cold and hot inner observables is run through merge_all(n)/concat_all/flatten/flat_map/concat_map (both forms); exact output, concurrency limit, and return of every call are checked at every step.", "5/C05"),
- "C06": ([E1], "bounded-exhaustive enumeration of operation sequences on the five real subject types against a list model",
-         "Every sequence up to the length bound of subscribe/unsubscribe/next/error/complete/retain/unsubscribe-subject/subscribe-from-a-callback is executed on each subject type; all probe traces and API answers are compared with the model after every operation. (The concurrent half is served by engine E2 once built.)", "5/C06"),
+ "C06": ([E1, E2], "bounded-exhaustive enumeration of operation sequences on the five real subject types against a list model; plus exhaustive preemption-bounded DFS over interleavings of 2-3 threads sharing a SubjectThreads",
+         "Every sequence up to the length bound of subscribe/unsubscribe/next/error/complete/retain/unsubscribe-subject/subscribe-from-a-callback is executed on each subject type; all probe traces and API answers are compared with the model after every operation. (The concurrent half is served by engine E2 ; see coverage.engines in the evidence file.)", "5/C06"),
  "C07": ([E1], "bounded-exhaustive enumeration of timed source scripts x deviation-bounded scheduler run orders (FIFO and any-ready-task-next executor models) on the real observe_on/delay/subscribe_on family under a virtual clock",
          "Every sequence up to the length bound of source events, clock ticks and task runs is executed for observe_on, delay, delay_at, delay_subscription(_at), subscribe_on (both forms where they exist) under the FIFO-prompt model and under the any-order model with a bounded number of deviations; no invention/duplication/early delivery ever, exact order and timing under FIFO, completeness once everything ran out.", "5/C07"),
  "C08": ([E1], "bounded-exhaustive enumeration of clock advances, poll orders and async scripts on the real interval/timer/from_future/from_stream sources under a virtual clock",
          "Every environment sequence up to the length bound (single ticks, jumps over several periods, run order of ready tasks within the deviation bound, wake-ups of pending futures/streams, every async script up to the length bound) is executed; values, earliest times, exact times under the prompt model and relay completeness are checked after every step.", "5/C08"),
  "C09": ([E1], "bounded-exhaustive enumeration of timed source scripts x same-instant orderings on the real rate-limiting operators against timed list models",
          "Every sequence up to the length bound of source events, ticks and task runs (one deviation = both orders of a same-instant source event and timer) is executed for debounce, throttle(_time) x 3 edges, sample(interval), buffer_with_time, buffer_with_count_and_time; generic no-invention/no-duplication/order/buffer clauses under every run order and the exact timed model under the prompt executor.", "5/C09"),
+ "C10": ([E2], "exhaustive preemption-bounded DFS over thread interleavings (CHESS-style iterative context bounding, own scheduler on the shuttle runtime) of real _threads code",
+         "Two and three controlled threads run short scripts of next/complete/error/subscribe/unsubscribe against a shared SubjectThreads and against every _threads operator family; every schedule within the preemption bound is executed (scheduling points at every MutArc lock/unlock, controlled atomics, spawn/join, wake-ups); overlap detector, notification grammar, common order, and completion of every thread (deadlock and lost wake-up are reported by the runtime) are checked on each. The statement's `randomised beyond the bound` part is sampling and is not claimed.", "5/C10"),
  "C11": ([E1], "bounded-exhaustive enumeration of join/leave/emit/connect histories on the real share/publish operators with upstream counters",
          "Every history up to the length bound of subscribe/unsubscribe/source events/connect is executed for share, share_threads and publish; source-subscription and upstream-tap counters and every subscriber trace are checked after every step.", "5/C11"),
- "C12": ([E1], "bounded-exhaustive enumeration of operation sequences on the real BehaviorSubject (both subject kinds) against a one-cell model",
-         "Every sequence up to the length bound of next/next_by/clone/subscribe/unsubscribe/complete/error is executed; every probe trace and peek() of every handle are compared with the model after every operation. (The two-producer race is served by engine E2 once built.)", "5/C12"),
+ "C12": ([E1, E2], "bounded-exhaustive enumeration of operation sequences on the real BehaviorSubject (both subject kinds) against a one-cell model; plus exhaustive preemption-bounded DFS over interleavings of producers and a late subscriber",
+         "Every sequence up to the length bound of next/next_by/clone/subscribe/unsubscribe/complete/error is executed; every probe trace and peek() of every handle are compared with the model after every operation. (The two-producer race is served by engine E2 ; see coverage.engines in the evidence file.)", "5/C12"),
  "C13": ([E1], "bounded-exhaustive enumeration of cloneable operator chains x cold scripts with repeated and nested subscriptions of clones, counting closure/iterator/tap calls",
          "Every chain up to the depth bound of cloneable operators over every cold source and script is built (counters must stay 0), subscribed three times through clones and once more from inside a callback; traces must be identical and equal to the list model, per-subscription work identical, source closures exactly once.", "5/C13"),
- "C14": ([E1], "bounded-exhaustive enumeration of source scripts x every placement of polls on the real to_future/to_stream/collect/complete_status with a counting waker",
-         "Every sequence up to the length bound of next/complete/error/poll is executed against each conversion; every poll result, waker wake-up and status flag is compared with the documented outcome, and after the source's terminal the conversion must be ready. (The producer/waiter thread race is served by engine E2 once built.)", "5/C14"),
- "C15": ([E1], "bounded-exhaustive enumeration of terminal/unsubscribe sequences on the real finalize operators with an invocation counter",
-         "Every sequence up to the length bound of next/complete/error/unsubscribe (terminals through cloned handles) on four pipeline shapes in both forms; the finalizer counter must be 0 before the first trigger and exactly 1 from the return of the triggering call on. (The terminating-vs-unsubscribing thread race is served by engine E2 once built.)", "5/C15"),
+ "C14": ([E1, E2], "bounded-exhaustive enumeration of source scripts x every placement of polls on the real to_future/to_stream/collect/complete_status with a counting waker; plus exhaustive preemption-bounded DFS over interleavings of a producer and a waiting thread",
+         "Every sequence up to the length bound of next/complete/error/poll is executed against each conversion; every poll result, waker wake-up and status flag is compared with the documented outcome, and after the source's terminal the conversion must be ready. (The producer/waiter thread race is served by engine E2 ; see coverage.engines in the evidence file.)", "5/C14"),
+ "C15": ([E1, E2], "bounded-exhaustive enumeration of terminal/unsubscribe sequences on the real finalize operators with an invocation counter; plus exhaustive preemption-bounded DFS over interleavings of terminating and unsubscribing threads",
+         "Every sequence up to the length bound of next/complete/error/unsubscribe (terminals through cloned handles) on four pipeline shapes in both forms; the finalizer counter must be 0 before the first trigger and exactly 1 from the return of the triggering call on. (The terminating-vs-unsubscribing thread race is served by engine E2 ; see coverage.engines in the evidence file.)", "5/C15"),
  "C16": ([E1], "bounded-exhaustive enumeration of producer x intermediate-stage x cutter pipelines (and producers in second-input position) on the real operators under a virtual clock, with pull/emission counters and an idle-pool check",
          "Every producer (interval, interval_at, from_iter, from_stream, timer, operator-owned tickers) under every stage sequence up to the depth bound and every early-terminating operator, as main and as second input of every two-input operator, in both forms: after the subscriber's terminal at most one more pull/emission happens and the pool is idle (no ready task, no live timer) within one period + 2 ticks.", "5/C16"),
  "C17": ([E1], "bounded-exhaustive enumeration of pipelines x action histories with is_closed() sampled after every action, plus operation sequences on composite subscriptions over controllable children",
